@@ -148,6 +148,13 @@ pub fn replay(args: &Args) {
                 }
                 replay_agg(&mut rep, v, laws.as_ref())
             },
+            "agg_inf" => {
+                rep.cases += 1;
+                if rep.cases % 500 == 1 {
+                    rep.sample(v.clone());
+                }
+                replay_agg_inf(&mut rep, v)
+            },
             "agg2" => {
                 rep.cases += 1;
                 if rep.cases % 1500 == 1 {
@@ -241,6 +248,66 @@ fn replay_agg(rep: &mut Report, v: &Value, laws: Option<&Laws3>) {
         agg_cell!(rep, v, skey, &e, mp, "Vec<usize> (owned)", vz.clone(), ousz, ousz);
         let vou: Vec<Option<u64>> = s.iter().map(|x| Some(*x as u64)).collect();
         agg_cell!(rep, v, skey, &e, mp, "Vec<Option<u64>>.titer()", vou.titer(), ou64, |x: Option<Option<u64>>| ou64(x.flatten()));
+    }
+
+    // ---- the fold primitives themselves (iter_traits.rs) and the one-step helpers (number.rs) ----
+    if let Some(calls) = v.get("calls").and_then(|c| c.as_array()) {
+        let want: Vec<i64> = calls.iter().map(|x| x.as_i64().unwrap()).collect();
+        let fk = |f: &str| format!("{f}|{skey}");
+        let mut judge_calls = |f: &str, cell: &str, r: Result<(Vec<i64>, Option<usize>), String>| {
+            rep.cells += 1;
+            match r {
+                Ok((got, n)) if got == want && n.map(|n| n == want.len()).unwrap_or(true) => rep.ok(f, 0.0),
+                Ok((got, n)) => rep.fail(f, &fk(f), cell, &format!("closure called with {got:?} (count {n:?}), the valid elements are {want:?}"), v),
+                Err(m) => rep.fail(f, &fk(f), cell, &format!("panicked: {m}"), v),
+            }
+        };
+        judge_calls("vfold", "Vec<f64>.titer()", catch(|| (vf.titer().vfold(Vec::new(), |mut acc, x| { acc.push(x as i64); acc }), None)));
+        judge_calls("vfold", "Vec<Option<i32>> (owned)", catch(|| (voi.clone().vfold(Vec::new(), |mut acc, x| { acc.push(x.unwrap() as i64); acc }), None)));
+        judge_calls("vfold_n", "Vec<f64>.titer()", catch(|| { let (n, a) = vf.titer().vfold_n(Vec::new(), |mut acc, x: f64| { acc.push(x as i64); acc }); (a, Some(n)) }));
+        judge_calls("vfold_n", "Vec<Option<f64>>.titer()", catch(|| { let (n, a) = vo.titer().vfold_n(Vec::new(), |mut acc, x: f64| { acc.push(x as i64); acc }); (a, Some(n)) }));
+        judge_calls("vfold_n", "Vec<f64>.opt()", catch(|| { let (n, a) = vf.opt().titer().vfold_n(Vec::new(), |mut acc, x: f64| { acc.push(x as i64); acc }); (a, Some(n)) }));
+        judge_calls("vapply", "Vec<Option<i32>>.titer()", catch(|| { let mut a = Vec::new(); voi.titer().vapply(|x: i32| a.push(x as i64)); (a, None) }));
+        judge_calls("vapply_n", "Vec<f64> (owned)", catch(|| { let mut a = Vec::new(); let n = vf.clone().vapply_n(|x: f64| a.push(x as i64)); (a, Some(n)) }));
+        judge_calls("vapply_n", "Vec<Option<f64>>.titer()", catch(|| { let mut a = Vec::new(); let n = vo.titer().vapply_n(|x: f64| a.push(x as i64)); (a, Some(n)) }));
+        // n_add / n_prod: accumulate and count exactly when the operand is valid; Kahan summation is exact here
+        let nadd = get_ints(v, "nadd");
+        let nprod = get_ints(v, "nprod");
+        let mut judge_pair = |f: &str, cell: &str, r: Result<(f64, usize), String>, want: &[i64]| {
+            rep.cells += 1;
+            match r {
+                Ok((acc, n)) if acc == want[0] as f64 && n as i64 == want[1] => rep.ok(f, 0.0),
+                Ok((acc, n)) => rep.fail(f, &fk(f), cell, &format!("folded to ({acc}, {n}), want ({}, {})", want[0], want[1]), v),
+                Err(m) => rep.fail(f, &fk(f), cell, &format!("panicked: {m}"), v),
+            }
+        };
+        judge_pair("n_add", "f64", catch(|| { let mut n = 0usize; let mut acc = 0.0f64; for x in &vf { acc = acc.n_add(*x, &mut n); } (acc, n) }), &nadd);
+        judge_pair("n_prod", "f64", catch(|| { let mut n = 0usize; let mut acc = 1.0f64; for x in &vf { acc = acc.n_prod(*x, &mut n); } (acc, n) }), &nprod);
+        judge_pair("kh_sum", "f64", catch(|| {
+            let (mut acc, mut c, mut n) = (0.0f64, 0.0f64, 0usize);
+            for x in &vf { if !x.is_nan() { acc = acc.kh_sum(*x, &mut c); n += 1; } }
+            if c != 0.0 { return (f64::NAN, n); }
+            (acc, n)
+        }), &nadd);
+        if nullfree {
+            let vi: Vec<i32> = enc_vec(&s);
+            judge_pair("n_add", "i32", catch(|| { let mut n = 0usize; let mut acc = 0i32; for x in &vi { acc = acc.n_add(*x, &mut n); } (acc as f64, n) }), &nadd);
+            judge_pair("n_prod", "i32", catch(|| { let mut n = 0usize; let mut acc = 1i32; for x in &vi { acc = acc.n_prod(*x, &mut n); } (acc as f64, n) }), &nprod);
+            judge_pair("kh_sum", "i64", catch(|| { let (mut acc, mut c) = (0i64, 0i64); for x in &vi { acc = acc.kh_sum(*x as i64, &mut c); } (acc as f64 + c as f64, vi.len()) }), &nadd);
+        }
+        // min_with / max_with folded over the valid elements give the extremes
+        let valid: Vec<f64> = want.iter().map(|x| *x as f64).collect();
+        if !valid.is_empty() {
+            let mn = valid.iter().fold(valid[0], |a, b| a.min_with(*b));
+            let mx = valid.iter().fold(valid[0], |a, b| a.max_with(*b));
+            rep.check("min_with", &fk("min_with"), "f64", &e["vmin"], Obs::F(mn), v);
+            rep.check("max_with", &fk("max_with"), "f64", &e["vmax"], Obs::F(mx), v);
+            let vi: Vec<i64> = want.clone();
+            let mn = vi.iter().fold(vi[0], |a, b| a.min_with(*b));
+            let mx = vi.iter().fold(vi[0], |a, b| a.max_with(*b));
+            rep.check("min_with", &fk("min_with"), "i64", &e["vmin"], Obs::I(mn), v);
+            rep.check("max_with", &fk("max_with"), "i64", &e["vmax"], Obs::I(mx), v);
+        }
     }
 
     // counts of a given value (null counts the nulls)
@@ -355,6 +422,24 @@ fn replay_agg2(rep: &mut Report, v: &Value, laws: Option<&Laws3>) {
         }
     }
 
+    // vfold2 visits exactly the pairwise-complete pairs, in order
+    if let Some(c2) = v.get("calls2").and_then(|c| c.as_array()) {
+        let wa: Vec<i64> = c2[0].as_array().unwrap().iter().map(|x| x.as_i64().unwrap()).collect();
+        let wb: Vec<i64> = c2[1].as_array().unwrap().iter().map(|x| x.as_i64().unwrap()).collect();
+        let want: Vec<(i64, i64)> = wa.into_iter().zip(wb).collect();
+        let mut judge2 = |cell: &str, r: Result<Vec<(i64, i64)>, String>| {
+            rep.cells += 1;
+            match r {
+                Ok(got) if got == want => rep.ok("vfold2", 0.0),
+                Ok(got) => rep.fail("vfold2", &k("vfold2"), cell, &format!("closure called with {got:?}, the complete pairs are {want:?}"), v),
+                Err(m) => rep.fail("vfold2", &k("vfold2"), cell, &format!("panicked: {m}"), v),
+            }
+        };
+        judge2("Vec<f64>x2", catch(|| a.titer().vfold2(b.titer(), Vec::new(), |mut acc, x, y| { acc.push((x as i64, y as i64)); acc })));
+        judge2("Vec<Option<f64>> + Vec<f64>", catch(|| ao.titer().vfold2(b.titer(), Vec::new(), |mut acc, x, y| { acc.push((x.unwrap() as i64, y as i64)); acc })));
+        judge2("owned Vec<f64> + Vec<Option<f64>>", catch(|| a.clone().vfold2(bo.clone(), Vec::new(), |mut acc, x, y| { acc.push((x as i64, y.unwrap() as i64)); acc })));
+    }
+
     // the second series as a mask over {0, 1, null}
     let mf: Vec<f64> = enc_vec(&t);
     let mb: Vec<Option<bool>> = t.iter().map(|x| if *x == NULL { None } else { Some(*x == 1) }).collect();
@@ -364,4 +449,56 @@ fn replay_agg2(rep: &mut Report, v: &Value, laws: Option<&Laws3>) {
     run!("n_sum_filter", "mask_sum", "Vec<Option<f64>>, mask Vec<f64>", ao.titer().n_sum_filter(mf.titer()), |x: Option<f64>| o_of(x));
     run!("vmean_filter", "mask_mean", "Vec<f64>, mask Vec<Option<bool>>", a.titer().vmean_filter(mb.titer(), mp), o_f);
     run!("vmean_filter", "mask_mean", "Vec<Option<f64>>, mask Vec<f64>", ao.titer().vmean_filter(mf.titer(), mp), o_f);
+}
+
+/// float series holding infinities (Agg.tla InfAggOf): an infinity is a valid element
+fn replay_agg_inf(rep: &mut Report, v: &Value) {
+    let s = get_ints(v, "s");
+    let (pinf, ninf) = (get_i64(v, "pinf"), get_i64(v, "ninf"));
+    let e = exps(v);
+    let skey = format!("s={}", format!("{s:?}").replace(&pinf.to_string(), "inf").replace(&NULL.to_string(), "null"));
+    let encf = |x: i64| -> f64 { if x == NULL { f64::NAN } else if x == pinf { f64::INFINITY } else if x == ninf { f64::NEG_INFINITY } else { x as f64 } };
+    let vf: Vec<f64> = s.iter().map(|x| encf(*x)).collect();
+    let v32: Vec<f32> = vf.iter().map(|x| *x as f32).collect();
+    let vo: Vec<Option<f64>> = s.iter().map(|x| if *x == NULL { None } else { Some(encf(*x)) }).collect();
+    let vo32: Vec<Option<f32>> = vo.iter().map(|x| x.map(|y| y as f32)).collect();
+    macro_rules! cell {
+        ($cell:expr, $mk:expr, $val_obs:expr, $first_obs:expr) => {{
+            let key = |f: &str| format!("{f}|{skey}");
+            macro_rules! run {
+                ($f:expr, $body:expr, $obs:expr) => {{
+                    match catch(|| $body) {
+                        Ok(x) => { rep.check($f, &key($f), $cell, &e[$f], $obs(x), v); },
+                        Err(m) => rep.fail($f, &key($f), $cell, &format!("panicked: {m}"), v),
+                    }
+                }};
+            }
+            run!("count_valid", $mk.count_valid(), |n: usize| Obs::I(n as i64));
+            run!("count_none", $mk.count_none(), |n: usize| Obs::I(n as i64));
+            run!("vfirst", $mk.vfirst(), $first_obs);
+            run!("vlast", $mk.vlast(), $first_obs);
+            run!("vsum", $mk.vsum(), $val_obs);
+            run!("vmean", $mk.vmean(), o_f);
+            run!("vmin", $mk.vmin(), $val_obs);
+            run!("vmax", $mk.vmax(), $val_obs);
+            run!("vargmin", $mk.vargmin(), o_ou);
+            run!("vargmax", $mk.vargmax(), o_ou);
+        }};
+    }
+    let of64 = |x: Option<f64>| o_of(x);
+    let of32 = |x: Option<f32>| o_of(x);
+    cell!("Vec<f64>.titer()", vf.titer(), of64, of64);
+    cell!("Vec<f64> (owned)", vf.clone(), of64, of64);
+    cell!("Vec<f64>.opt()", vf.opt().titer(), of64, |x: Option<Option<f64>>| o_of(x.flatten()));
+    cell!("Vec<Option<f64>>.titer()", vo.titer(), of64, |x: Option<Option<f64>>| o_of(x.flatten()));
+    cell!("Vec<f32>.titer()", v32.titer(), of32, of32);
+    cell!("Vec<Option<f32>> (owned)", vo32.clone(), of32, |x: Option<Option<f32>>| o_of(x.flatten()));
+    // the null-unaware twins on null-free input
+    if !has_null(&s) {
+        let k = |f: &str| format!("{f}|{skey}");
+        rep.check("max", &k("max"), "Vec<f64>", &e["vmax"], o_of(AggBasic::max(vf.titer())), v);
+        rep.check("min", &k("min"), "Vec<f64>", &e["vmin"], o_of(AggBasic::min(vf.titer())), v);
+        rep.check("argmax", &k("argmax"), "Vec<f64>", &e["vargmax"], o_ou(AggBasic::argmax(vf.titer())), v);
+        rep.check("argmin", &k("argmin"), "Vec<f64>", &e["vargmin"], o_ou(AggBasic::argmin(vf.titer())), v);
+    }
 }
